@@ -5,6 +5,7 @@ import (
 	"fmt"
 	"sync"
 
+	bin "github.com/gagliardetto/binary"
 	"github.com/gagliardetto/solana-go"
 	"github.com/ipfs/go-cid"
 	"github.com/rpcpool/yellowstone-faithful/ipld/ipldbindcode"
@@ -170,9 +171,30 @@ func ObjectsToTransactionsAndMetadata(
 			Slot:      uint64(decodedTxObj.Slot),
 			Blocktime: uint64(block.Meta.Blocktime),
 		}
-		tx, err := decodedTxObj.GetSolanaTransaction()
-		if err != nil {
-			return nil, fmt.Errorf("error while getting solana transaction from object %s: %w", object.Cid, err)
+		var tx *solana.Transaction
+		if total, ok := decodedTxObj.Data.GetTotal(); ok && total > 1 {
+			// the transaction itself didn't fit into the transaction object, and was split into multiple
+			// dataframes (which precede the transaction object, like those of the metadata):
+			txBuffer, err := tooling.LoadDataFromDataFrames(
+				&decodedTxObj.Data,
+				func(ctx context.Context, wantedCid cid.Cid) (*ipldbindcode.DataFrame, error) {
+					if dataBlock, ok := dataBlocksMap[wantedCid.String()]; ok {
+						return iplddecoders.DecodeDataFrame(dataBlock.ObjectData)
+					}
+					return nil, fmt.Errorf("dataframe not found")
+				})
+			if err != nil {
+				return nil, fmt.Errorf("failed to load transaction data of object %s: %w", object.Cid, err)
+			}
+			tx = new(solana.Transaction)
+			if err := bin.UnmarshalBin(tx, txBuffer); err != nil {
+				return nil, fmt.Errorf("error while unmarshaling transaction from object %s: %w", object.Cid, err)
+			}
+		} else {
+			tx, err = decodedTxObj.GetSolanaTransaction()
+			if err != nil {
+				return nil, fmt.Errorf("error while getting solana transaction from object %s: %w", object.Cid, err)
+			}
 		}
 		tws.Transaction = *tx
 		sigs := tx.Signatures
